@@ -97,7 +97,7 @@ Proof.
         destruct (t_listening (trk st (sc_dt (scalls st c)))) eqn:El; cbn.
         {
           inv_split H. unfold put_scall.
-          constructor; cbn; auto; try (timeout 200 reg_clause).
+          constructor; cbn; auto; try reg_clause.
           all: try (end_b3 st c true hA1 hA3 hB3 Hpd Hne Hia Hmap).
           all: try (end_b4 st c hB2 hB4 Huniq).
         }
